@@ -2,6 +2,7 @@ package symgo
 
 import (
 	"fmt"
+	"go/token"
 	"go/types"
 	"math"
 	"strings"
@@ -183,6 +184,10 @@ func init() {
 			t := in.newInput(argStr(a[0]), 64)
 			in.assume(in.tt.Cmp(OpULt, t, in.tt.Const(64, n)))
 			return in.concretize(t)
+		},
+		harnessPkg + ".Concrete": func(in *Interp, fn *ssa.Function, a []Value, _ ssa.CallInstruction) Value {
+			// case split: one path per feasible value
+			return in.concInt(a[0])
 		},
 		harnessPkg + ".Param": func(in *Interp, fn *ssa.Function, a []Value, _ ssa.CallInstruction) Value {
 			v, ok := in.ex.cfg.Params[argStr(a[0])]
@@ -489,7 +494,30 @@ func init() {
 			}
 			return in.fmtInt(a[0], 64, true)
 		},
-		"github.com/creack/pty.Setsize": intrNoop,
+		"github.com/creack/pty.Setsize":                  intrNoop,
+		"(golang.org/x/image/draw.Kernel).Scale":         intrNoop,
+		"(*golang.org/x/image/draw.Kernel).Scale":        intrNoop,
+		"(golang.org/x/image/draw.nnInterpolator).Scale": intrNoop,
+		"image.NewRGBA": func(in *Interp, fn *ssa.Function, a []Value, _ ssa.CallInstruction) Value {
+			// allocation only: Pix is not materialised (pixel values are outside the claim)
+			rt := fn.Signature.Results().At(0).Type().(*types.Pointer).Elem()
+			p := new(Value)
+			st := zero(rt).(Struct)
+			ust := rt.Underlying().(*types.Struct)
+			rect := a[0].(Struct)
+			for i := 0; i < ust.NumFields(); i++ {
+				switch ust.Field(i).Name() {
+				case "Rect":
+					st[i] = copyVal(rect)
+				case "Stride":
+					min, max := rect[0].(Struct), rect[1].(Struct)
+					dx := in.binop(token.SUB, types.Typ[types.Int], max[0], min[0])
+					st[i] = in.binop(token.MUL, types.Typ[types.Int], dx, uint64(4))
+				}
+			}
+			*p = st
+			return p
+		},
 		"unicode/utf8.DecodeRune": func(in *Interp, fn *ssa.Function, a []Value, _ ssa.CallInstruction) Value {
 			p := a[0].(Slice)
 			if len(p) == 0 {
